@@ -49,11 +49,13 @@ class RuleMd024(RulePlugin):
         """
         Event to allow the plugin to load configuration information.
         """
-        self.__siblings_only = self.plugin_configuration.get_boolean_property(
+        siblings_only = self.plugin_configuration.get_boolean_property(
             "siblings_only", default_value=False
-        ) or self.plugin_configuration.get_boolean_property(
+        )
+        allow_different_nesting = self.plugin_configuration.get_boolean_property(
             "allow_different_nesting", default_value=False
         )
+        self.__siblings_only = siblings_only or allow_different_nesting
 
     def query_config(self) -> List[QueryConfigItem]:
         """
